@@ -181,6 +181,7 @@ class Conn(object):
         self.in_framed = 0              # offset up to which delivered bytes were framed
         self.in_desync = False
         self.lost = False
+        self.raw_injected = False
         self.lost_seq = None
         self.closing_seq = None
         self.connect_seq = None         # first connect() dispatch that wrote something
@@ -521,6 +522,10 @@ class World(object):
         conn = self.handle(addr, st.get("h"))
         if op == "app.call":
             name = st["m"]
+            if name == "connect" and (conn.lost or conn.transport is None or conn.transport.phase != "open"):
+                # I3: the workloads never call connect() on a protocol whose transport
+                # is closing or has reported the loss (a finished Twisted protocol)
+                raise StepSkipped("connect() on a closing/lost transport is not part of any workload")
             args = [self.decode_arg(a) for a in st.get("a", [])]
             kwargs = {k: self.decode_arg(v) for k, v in st.get("k", {}).items()}
             self.rid += 1
@@ -675,8 +680,10 @@ class World(object):
                     break
                 self._fire(order[0])
                 guard += 1
-                if guard > 10000:
-                    raise RuntimeError("timer storm")
+                if guard >= 200:
+                    # bounded step: stop here, the clock stays at the last firing
+                    self.count("advance_truncated")
+                    return
             if target > self.reactor.rightNow:
                 self.reactor.rightNow = target
             return
@@ -874,6 +881,7 @@ class World(object):
             return self._send(conn, rc.encode(pkt, ver), dl, cut)
         if op == "brk.raw":
             self.count("raw_bytes")
+            conn.raw_injected = True
             return self._send(conn, bytes.fromhex(st["hex"]), dl, cut)
         if op == "brk.enqueue_only":
             return self._send(conn, bytes.fromhex(st["hex"]), False)
